@@ -11,6 +11,9 @@ use core::mem;
 //@include prelude/btc.rs
 //@include prelude/chain.rs
 //@map /OrderedMap<L::Key, \(L, ListenSlot\)>/ => VxListeners<L>
+//@map /OrderedSet<Txid>/ => VxSet<Txid>
+//@map /OrderedSet<OutPoint>/ => VxSet<OutPoint>
+//@map /OrderedSet::new\(\)/ => VxSet::new()
 //@map /Arc<dyn ValidatorFactory>/ => VxValidatorFactory
 //@map /Option<RefCell<BlockDecodeState>>/ => Option<VxDecodeState>
 //@map /\bString\b/ => VxMsg
@@ -23,11 +26,34 @@ verus! {
 
 //@@TAGS
 
-pub trait ChainListener { type Key; }
+pub trait ChainListener: Sized {
+    type Key;
+    spec fn key_spec(&self) -> Self::Key;
+    fn key(&self) -> (r: &Self::Key) ensures *r == self.key_spec();
+}
+// `listener.key().clone()` (L::Key: Clone, a value type)
+#[verifier::external_body]
+pub fn vx_clone_key<L: ChainListener>(k: &L::Key) -> (r: L::Key) ensures r == *k { unimplemented!() }
+// OrderedSet<T> (BTreeSet): finite set stub
+#[verifier::external_body]
+#[verifier::reject_recursive_types(T)]
+pub struct VxSet<T> { _p: core::marker::PhantomData<T> }
+impl<T> VxSet<T> {
+    pub uninterp spec fn view(&self) -> Set<T>;
+    #[verifier::external_body]
+    pub fn new() -> (r: Self) ensures r@ == Set::<T>::empty() { unimplemented!() }
+}
 
 #[verifier::external_body]
 #[verifier::reject_recursive_types(L)]
 pub struct VxListeners<L> { _p: core::marker::PhantomData<L> }     // OrderedMap<L::Key, (L, ListenSlot)>: listeners, their watches and monitors
+impl<L: ChainListener> VxListeners<L> {
+    pub uninterp spec fn view(&self) -> Map<L::Key, (L, ListenSlot)>;
+    #[verifier::external_body]
+    pub fn insert(&mut self, k: L::Key, v: (L, ListenSlot)) -> (r: Option<(L, ListenSlot)>) ensures final(self)@ == old(self)@.insert(k, v) { unimplemented!() }
+    #[verifier::external_body]
+    pub fn remove(&mut self, k: &L::Key) -> (r: Option<(L, ListenSlot)>) ensures final(self)@ == old(self)@.remove(*k) { unimplemented!() }
+}
 #[verifier::external_body]
 pub struct VxValidatorFactory { _p: u8 }
 #[verifier::external_body]
@@ -37,6 +63,7 @@ pub struct ValidationErrorDbg { _p: u8 }
 
 //@type vls-core/src/chain/tracker.rs :: Error
 //@type vls-core/src/chain/tracker.rs :: Headers derive=Clone
+//@type vls-core/src/chain/tracker.rs :: ListenSlot
 //@type vls-core/src/chain/tracker.rs :: ChainTracker attr="#[verifier::reject_recursive_types(L)]"
 //@const vls-core/src/chain/tracker.rs :: MAX_REORG_SIZE ctx="impl<L: ChainListener> ChainTracker<L>"
 
@@ -148,6 +175,42 @@ impl<L: ChainListener> ChainTracker<L> {
             && final(self).headers@ == (if old(self).headers@.len() > 0 { old(self).headers@.drop_first() } else { old(self).headers@ })
             && r->Ok_0 == old(self).tip.0,                                                          //[C13.remove.retreat]
         r.is_err() ==> tracker_same(*final(self), *old(self)),                                       //[C13.remove.atomic] [C10.tracker.remove-err-frame]
+//@end
+
+// ---- listener registration (C14 / C11: what a restart puts back is the persisted entry, verbatim) ----
+//@fn vls-core/src/chain/tracker.rs :: impl<L: ChainListener> ChainTracker<L> :: restore_listener props=C14,C11
+    ensures
+        // the persisted entry - txid watches, outpoint watches AND the outpoints already seen spent (they are what a later
+        // reorg must watch) - is registered again under the persisted key, nothing else changes
+        final(self).listeners@ == old(self).listeners@.insert(outpoint, (listener, slot)),             //[C14.restore-listener.entry-verbatim] [C11.restore-listener.entry-verbatim]
+        final(self).headers == old(self).headers && final(self).tip == old(self).tip && final(self).height == old(self).height,
+//@end
+
+//@fn vls-core/src/chain/tracker.rs :: impl<L: ChainListener> ChainTracker<L> :: add_listener props=C14
+    ensures
+        final(self).listeners@ == old(self).listeners@.insert(listener.key_spec(),
+            (listener, ListenSlot { txid_watches: initial_txid_watches, watches: final(self).listeners@[listener.key_spec()].1.watches,
+                seen: final(self).listeners@[listener.key_spec()].1.seen })),
+        final(self).listeners@[listener.key_spec()].1.watches@ == Set::<OutPoint>::empty()
+            && final(self).listeners@[listener.key_spec()].1.seen@ == Set::<OutPoint>::empty(),          //[C14.add-listener.fresh-slot]
+        final(self).headers == old(self).headers && final(self).tip == old(self).tip && final(self).height == old(self).height,
+//@sub /listener\.key\(\)\.clone\(\)/ => vx_clone_key::<L>(listener.key())
+//@end
+
+//@fn vls-core/src/chain/tracker.rs :: impl<L: ChainListener> ChainTracker<L> :: remove_listener props=C14
+    ensures
+        final(self).listeners@ == old(self).listeners@.remove(*key),                                   //[C14.remove-listener.only-that-entry]
+        final(self).headers == old(self).headers && final(self).tip == old(self).tip && final(self).height == old(self).height,
+//@end
+
+    // (`slot.watches.extend(watches)` through `get_mut`: trusted, the body is one call)
+//@fn vls-core/src/chain/tracker.rs :: impl<L: ChainListener> ChainTracker<L> :: add_listener_watches mode=trusted
+    requires old(self).listeners@.contains_key(*key),
+    ensures
+        final(self).listeners@ == old(self).listeners@.insert(*key, (old(self).listeners@[*key].0,
+            ListenSlot { watches: final(self).listeners@[*key].1.watches, ..old(self).listeners@[*key].1 })),
+        final(self).listeners@[*key].1.watches@ == old(self).listeners@[*key].1.watches@.union(watches@),
+        final(self).headers == old(self).headers && final(self).tip == old(self).tip && final(self).height == old(self).height,
 //@end
 
 } // impl
